@@ -130,6 +130,11 @@ var ctlPrograms = []prog{
 	mkProg("ctl-two-callbacks", "S:1:R,1,2:2:0:0:0 C:2:B,P,1,X,1:3 C:2:R,1,3:3 S:3:R,1,4:4:0:0:0 H:3:0 H:4:0 D:0"),
 	mkProg("ctl-delete-fails-twice", "S:1:R,1,2:2:0:0:0 C:2:R,1,3:3 S:3:R,1,4:4:0:0:0 H:4:0 D:4 O:retry=100"),
 	mkProg("ctl-stepctl", "S:1:B,P,1,X,1:2:0:0:0 S:2:R,1,3:3:0:0:0 H:3:0 H:4:0 D:1 O:retry=100,stamp=1"),
+	// pause / cancel taken from inside a function through a SEPARATE controller (extctl, harness-only): the engine's own
+	// snapshot of the run is not touched, so whatever runs next in the same cycle must re-read the run — two timeout functions
+	// on one status, the first of which pauses or cancels
+	mkProg("ctl-two-timeouts-ext", "S:1:R,1,2:2:0:0:0 T:2:100:B,P,1,X,1:3:0 T:2:100:R,1,3:3:0 S:3:R,1,4:4:0:0:0 H:3:0 H:4:0 D:0 O:extctl=1"),
+	mkProg("ctl-stepctl-ext", "S:1:B,P,1,X,1:2:0:0:0 S:2:R,1,3:3:0:0:0 H:3:0 H:4:0 D:1 O:retry=100,stamp=1,extctl=1"),
 }
 
 var pauseProgramsFmt = []string{
